@@ -196,7 +196,7 @@ def sequence_strategy():
         ambig = "".join(c for c in alpha if len(CODE_MAP[t][c]) != 1)
         motif = st.one_of(st.text(alphabet=alpha, min_size=1, max_size=12), st.text(alphabet=alpha, min_size=1, max_size=40),
                           st.text(alphabet=ambig, min_size=1, max_size=4))
-        reps = st.one_of(st.just(1), st.just(1), st.integers(1, 6), st.integers(1, 80))
+        reps = st.one_of(st.just(1), st.just(1), st.integers(1, 6), st.integers(1, 80), st.integers(100, 400))
         # the empty sequence through an explicit selector (~6 %), otherwise 1..4 blocks
         blocks = st.tuples(st.integers(0, 15), st.lists(st.tuples(motif, reps).map(list), min_size=1, max_size=4)).map(
             lambda t: [] if t[0] == 7 else t[1])
@@ -217,7 +217,7 @@ def check_sequence(ctx, case):
     cmap = CODE_MAP[typ]
     n_amb = sum(1 for c in kept if len(cmap[c]) != 1)
     cls = ["type:" + typ, "len:" + ("0" if not kept else "1" if len(kept) == 1 else "2-20" if len(kept) <= 20 else
-                                    "21-300" if len(kept) <= 300 else ">300"),
+                                    "21-300" if len(kept) <= 300 else "301-1000" if len(kept) <= 1000 else ">1000"),
            "ambiguity:" + ("none" if not n_amb else "some" if n_amb < len(kept) else "all")]
     if " " in raw:
         cls.append("with-blanks")
@@ -413,14 +413,15 @@ def task_fasta(ctx, n):
 def tasks(tier):
     if tier == "quick":
         return [("codes", task_codes, {}),
-                ("sequences-a", task_sequences, dict(n=500)),
-                ("sequences-b", task_sequences, dict(n=500)),
-                ("sequences-c", task_sequences, dict(n=500)),
+                ("sequences-a", task_sequences, dict(n=400)),
+                ("sequences-b", task_sequences, dict(n=400)),
+                ("sequences-c", task_sequences, dict(n=400)),
+                ("sequences-d", task_sequences, dict(n=400)),
                 ("fasta-a", task_fasta, dict(n=200)),
                 ("fasta-b", task_fasta, dict(n=200))]
     out = [("codes", task_codes, {})]
     for k in range(10):
-        out.append(("sequences-%d" % k, task_sequences, dict(n=10000)))
+        out.append(("sequences-%d" % k, task_sequences, dict(n=7000)))
     for k in range(5):
         out.append(("fasta-%d" % k, task_fasta, dict(n=6000)))
     return out
